@@ -1,9 +1,202 @@
-import ScryerModel.Model.Quote
+import ScryerModel.Proofs.QuoteEsc
+import ScryerModel.Proofs.QuoteMin
+/-!
+# C55 — writeq and print quote and space exactly as ISO requires
+
+The definitions the theorems talk about (`Model/Quote.lean`) mirror `heap_print.rs`
+(`non_quoted_token`, `char_to_string`, `print_op_addendum`, `requires_space`, …) and `lexer.rs` over the
+character classes *extracted* from `src/parser/macros.rs` on every run (`Extracted/CharClass.lean`).
+`u : UC` holds Rust's Unicode predicates (`char::is_alphabetic` …) as parameters; `UCWF u` says they
+answer on ASCII what ASCII says. All theorems hold for every text (any length, any characters).
+-/
 namespace Scryer.C55
 open Scryer.Quote Scryer.CharClass
+
+/-! ## The ISO side (written here by hand from ISO/IEC 13211-1 6.4.2, 6.5) -/
+
+/-- 6.5.1 graphic char -/
+def isoGraphic : List Char := ['#', '$', '&', '*', '+', '-', '.', '/', ':', '<', '=', '>', '?', '@', '^', '~']
+/-- 6.5.3 solo char -/
+def isoSolo : List Char := ['!', '(', ')', ',', ';', '[', ']', '{', '}', '|', '%']
+/-- 6.5.5 meta char -/
+def isoMeta : List Char := ['\\', '\'', '"', '`']
+/-- 6.4.2 letter digit token, with the processor's extended small letters / alphanumerics -/
+def IsLetterDigitToken (u : UC) (s : List Char) : Prop :=
+  ∃ c r, s = c :: r ∧ small_letter_char u c = true ∧ ∀ d ∈ r, alpha_numeric_char u d = true
+/-- 6.4.2 graphic token: graphic token char {graphic token char}, graphic token char = graphic | backslash -/
+def IsGraphicToken (s : List Char) : Prop := s ≠ [] ∧ ∀ d ∈ s, d ∈ isoGraphic ∨ d = '\\'
+/-- a graphic token "that cannot be misread": it does not open a bracketed comment (6.4.2: "a graphic
+    token shall not begin with the character sequence comment open") and is not the end char alone -/
+def NotMisread (s : List Char) : Prop := (¬ ∃ r, s = '/' :: '*' :: r) ∧ s ≠ ['.']
+/-- the atoms made of solo characters: `[]`, `{}`, `!`, `;` (6.3.1.3 and 6.4.2 cut / semicolon token) -/
+def IsSoloAtom (s : List Char) : Prop := s = ['[', ']'] ∨ s = ['{', '}'] ∨ s = ['!'] ∨ s = [';']
+
+/-- The extracted classes are the ISO tables (checked again whenever `macros.rs` changes):
+    graphic, solo, meta characters, and on ASCII: alpha = letter or `_`, small letter = a..z,
+    capital letter = A..Z, alphanumeric = alpha or digit. -/
+theorem C55_classes_are_iso (u : UC) (hu : UCWF u) (c : Char) :
+    (graphic_char u c = true ↔ c ∈ isoGraphic) ∧ (solo_char u c = true ↔ c ∈ isoSolo) ∧
+    (meta_char u c = true ↔ c ∈ isoMeta) ∧ (graphic_token_char u c = true ↔ (c ∈ isoGraphic ∨ c = '\\')) ∧
+    (c.toNat < 128 → alpha_char u c = (c.isAlpha || c == '_')) ∧
+    (c.toNat < 128 → small_letter_char u c = c.isLower) ∧
+    (c.toNat < 128 → capital_letter_char u c = c.isUpper) ∧
+    (c.toNat < 128 → alpha_numeric_char u c = (c.isAlpha || c == '_' || c.isDigit)) := by
+  refine ⟨?_, ?_, ?_, ?_, ?_, fun h => small_ascii hu h, fun h => cap_ascii hu h, fun h => alnum_ascii hu h⟩
+  · simp [graphic_char, isoGraphic, or_assoc]
+  · simp [solo_char, isoSolo, or_assoc]
+  · simp [meta_char, isoMeta, or_assoc]
+  · simp [graphic_token_char, graphic_char, backslash_char, isoGraphic, or_assoc]
+  · intro h; rw [wf_alpha hu h, ascii_alpha_iso c h]
+
+/-- **Quoting decision = ISO.** `non_quoted_token` answers "unquoted" exactly for letter-digit tokens that
+    start with a small letter, graphic tokens that cannot be misread, and the solo atoms. -/
+theorem C55_unquoted_iff_iso (u : UC) (hu : UCWF u) (s : List Char) :
+    nonQuotedToken u s = true ↔
+      IsLetterDigitToken u s ∨ (IsGraphicToken s ∧ NotMisread s) ∨ IsSoloAtom s := by
+  have gt : ∀ d : Char, (d ∈ isoGraphic ∨ d = '\\') ↔ graphic_token_char u d = true := fun d =>
+    ((C55_classes_are_iso u hu d).2.2.2.1).symm
+  cases s with
+  | nil => simp [nonQuotedToken, IsLetterDigitToken, IsGraphicToken, IsSoloAtom]
+  | cons c r =>
+    by_cases hs : small_letter_char u c = true
+    · rw [nonQuoted_small r hs]
+      have ng : graphic_token_char u c = false := (small_facts hu hs).2.2.2.2
+      constructor
+      · intro h; exact Or.inl ⟨c, r, rfl, hs, by simpa using h⟩
+      · rintro (⟨c', r', e, _, h⟩ | ⟨⟨_, h⟩, _⟩ | h)
+        · simp at e; obtain ⟨rfl, rfl⟩ := e; simpa using h
+        · have := (gt c).1 (h c (by simp)); rw [ng] at this; exact absurd this (by simp)
+        · exfalso
+          have ne : ∀ x : Char, x.toNat < 128 → x.isLower = false → c ≠ x := fun x hx hl => small_ne hu hs hx hl
+          rcases h with h | h | h | h <;> simp at h
+          · exact ne _ (by decide) (by decide) h.1
+          · exact ne _ (by decide) (by decide) h.1
+          · exact ne _ (by decide) (by decide) h.1
+          · exact ne _ (by decide) (by decide) h.1
+    · by_cases hg : graphic_token_char u c = true
+      · rw [nonQuoted_graphic hu r hg, nonQuotedGraphic_iff]
+        have nsolo : ¬ IsSoloAtom (c :: r) := by
+          have := (gt_facts c ((gt_mem u c).1 hg)).2.2.2.2.1
+          rintro (h | h | h | h) <;> simp at h <;> (obtain ⟨rfl, _⟩ := h; simp [solo_char] at this)
+        constructor
+        · rintro ⟨h1, h2, h3⟩
+          refine Or.inr (Or.inl ⟨⟨by simp, ?_⟩, ?_, ?_⟩)
+          · intro d hd; simp at hd; rcases hd with rfl | hd
+            · exact (gt d).2 hg
+            · exact (gt d).2 (h1 d hd)
+          · rintro ⟨r', e⟩; simp at e; exact h2 ⟨e.1, _, e.2⟩
+          · intro e; simp at e; exact h3 e
+        · rintro (⟨c', r', e, hsm, _⟩ | ⟨⟨_, h⟩, h2, h3⟩ | h)
+          · simp at e; obtain ⟨rfl, rfl⟩ := e; exact absurd hsm hs
+          · refine ⟨fun d hd => (gt d).1 (h d (by simp [hd])), ?_, ?_⟩
+            · rintro ⟨rfl, r', rfl⟩; exact h2 ⟨r', rfl⟩
+            · rintro ⟨rfl, rfl⟩; exact h3 rfl
+          · exact absurd h nsolo
+      · rw [nonQuoted_other r (by simpa using hs) (by simpa using hg)]
+        constructor
+        · rintro (⟨rfl, rfl⟩ | ⟨rfl, rfl⟩ | ⟨rfl, rfl⟩ | ⟨rfl, rfl⟩) <;> simp [IsSoloAtom]
+        · rintro (⟨c', r', e, hsm, _⟩ | ⟨⟨_, h⟩, _⟩ | h)
+          · simp at e; obtain ⟨rfl, rfl⟩ := e; exact absurd hsm hs
+          · exact absurd ((gt c).1 (h c (by simp))) hg
+          · rcases h with h | h | h | h <;> simp at h <;> obtain ⟨rfl, rfl⟩ := h <;> simp
+
+/-- **Soundness and minimality of unquoted output.** The printer leaves a text unquoted exactly when the
+    text itself, read by the token reader, is one atom and denotes the atom with that text
+    (a name token, or `[` `]`, or `{` `}`). So unquoted output never changes meaning, and quotes are
+    never added to a text that does not need them. -/
+theorem C55_unquoted_iff_reads_as_itself (u : UC) (hu : UCWF u) (s : List Char) :
+    printAtom u true s = s ↔ readAtom u s = some s := by
+  constructor
+  · intro h
+    by_cases hq : nonQuotedToken u s = true
+    · exact readAtom_of_nonQuoted hu hq
+    · exfalso
+      simp [printAtom, printAtomImpl, hq] at h
+      have := congrArg List.length h
+      have := flatMap_charToString_length u true s
+      simp at *
+      omega
+  · intro h
+    simp [printAtom, printAtomImpl, nonQuoted_of_readAtom hu h]
+
+/-- **Round trip.** For every text, what `writeq`/`write_canonical`/`write_term(quoted(true))` write for
+    the atom (repaired printer, see C55-1) reads back as exactly that atom. -/
+theorem C55_quoted_roundtrip (u : UC) (hu : UCWF u) (s : List Char) :
+    readAtom u (printAtom u true s) = some s := by
+  by_cases hq : nonQuotedToken u s = true
+  · simp [printAtom, printAtomImpl, hq, readAtom_of_nonQuoted hu hq]
+  · simp only [printAtom, printAtomImpl, hq]
+    simpa using readAtom_quoted hu s
+
+/-- **The escapes are the standard ones.** Inside quotes every character is written as itself, except:
+    the quote as `\'`, the backslash as `\\`, the seven control characters with a symbolic escape as
+    `\a \b \f \n \r \t \v`, and every other white-space or control character (everything but the space)
+    as the hexadecimal escape `\xH..\`. -/
+theorem C55_escapes_standard (u : UC) (c : Char) :
+    charToString u true c =
+      if c = '\'' then ['\\', '\''] else if c = '\\' then ['\\', '\\']
+      else if c = Char.ofNat 7 then ['\\', 'a'] else if c = Char.ofNat 8 then ['\\', 'b']
+      else if c = Char.ofNat 12 then ['\\', 'f'] else if c = '\n' then ['\\', 'n']
+      else if c = '\r' then ['\\', 'r'] else if c = '\t' then ['\\', 't']
+      else if c = Char.ofNat 11 then ['\\', 'v']
+      else if c = ' ' ∨ c = '"' then [c]
+      else if u.is_whitespace c = true ∨ u.is_control c = true then
+        ['\\', 'x'] ++ hexDigits c.toNat ++ ['\\']
+      else [c] := by
+  by_cases e1 : c = '\''
+  · subst e1; simp [charToString]
+  by_cases e2 : c = '\\'
+  · subst e2; simp [charToString]
+  by_cases e3 : c = Char.ofNat 7
+  · subst e3; simp [charToString]
+  by_cases e4 : c = Char.ofNat 8
+  · subst e4; simp [charToString]
+  by_cases e5 : c = Char.ofNat 12
+  · subst e5; simp [charToString]
+  by_cases e6 : c = '\n'
+  · subst e6; simp [charToString]
+  by_cases e7 : c = '\r'
+  · subst e7; simp [charToString]
+  by_cases e8 : c = '\t'
+  · subst e8; simp [charToString]
+  by_cases e9 : c = Char.ofNat 11
+  · subst e9; simp [charToString]
+  by_cases e10 : c = ' '
+  · subst e10; simp [charToString, plainList]
+  by_cases e11 : c = '"'
+  · subst e11; simp [charToString, plainList]
+  simp [charToString, plainList, e1, e2, e3, e4, e5, e6, e7, e8, e9, e10, e11]
 
 /-- `write/1` (quoted = false) never quotes: the atom text is written unchanged. -/
 theorem C55_write_never_quotes (u : UC) (s : List Char) : printAtom u false s = s := by
   simp [printAtom, printAtomImpl]
+
+/-- Witness for finding C55-1: the code as written prints the atom whose text is two quote characters as
+    `''`, which reads back as the *empty* atom; the repaired printer writes `'\'\''`. -/
+theorem C55_pinned_two_quotes_witness :
+    printAtomImpl false asciiUC true ['\'', '\''] = ['\'', '\''] ∧
+    readAtom asciiUC (printAtomImpl false asciiUC true ['\'', '\'']) = some [] ∧
+    printAtom asciiUC true ['\'', '\''] = ['\'', '\\', '\'', '\\', '\'', '\''] := by
+  decide
+
+/-! ## Non-vacuity -/
+
+/-- `asciiUC` satisfies the hypothesis of the theorems. -/
+example : UCWF asciiUC := ⟨fun _ _ => rfl, fun _ _ => rfl, fun _ _ => rfl, fun _ _ => rfl, fun _ _ => rfl⟩
+/-- every `mkUC` table (what the driver uses) satisfies it. -/
+example (tbl : List (Nat × Nat)) : UCWF (mkUC tbl) :=
+  ⟨fun c h => by simp [mkUC, h], fun c h => by simp [mkUC, h], fun c h => by simp [mkUC, h],
+   fun c h => by simp [mkUC, h], fun c h => by simp [mkUC, h]⟩
+example : nonQuotedToken asciiUC "foo_Bar1".toList = true := by decide
+example : nonQuotedToken asciiUC "=..".toList = true := by decide
+example : nonQuotedToken asciiUC "[]".toList = true := by decide
+example : nonQuotedToken asciiUC "/*".toList = false := by decide
+example : nonQuotedToken asciiUC ".".toList = false := by decide
+example : nonQuotedToken asciiUC "Foo".toList = false := by decide
+example : nonQuotedToken asciiUC ",".toList = false := by decide
+example : nonQuotedToken asciiUC "|".toList = false := by decide
+example : printAtom asciiUC true "a b\n".toList = "'a b\\n'".toList := by decide
+example : hexDigits 27 = ['1', 'b'] := by
+  rw [hexDigits]; simp only [show ¬ (27 < 16) by decide, dite_false]; rw [hexDigits]; decide
 
 end Scryer.C55
